@@ -185,6 +185,21 @@ def shard(binpath, seed, sh, n):
                 h2 = h.upper() if how == "upper" else "".join(ch.upper() if i % 3 == 0 else ch for i, ch in enumerate(h))
                 extra.append({"op": "serde", "type": c["type"], "text": c["text"].replace('"' + h + '"', '"' + h2 + '"', 1),
                               "meta": {"valid": False, "if_accepted_unaltered": True, "hexcase": how}})
+    # rule keywords (CREATE ... MATCH, IN / WITH / MATERIALS / PRODUCTS / FROM) in another letter case: rejected, or accepted
+    # and written back as they were read
+    kw = 0
+    for c in list(cases):
+        if c["meta"]["valid"] and c["type"] in ("metablock", "layout", "wrapper", "rule", "step", "inspection") and kw < n // 10:
+            found = re.findall(r'"(CREATE|DELETE|MODIFY|ALLOW|REQUIRE|DISALLOW|MATCH|WITH|MATERIALS|PRODUCTS|FROM|IN)"', c["text"])
+            if found:
+                w = rng.choice(found)
+                how = rng.choice(["lower", "title", "mixed"])
+                w2 = w.lower() if how == "lower" else w.title() if how == "title" else w[0] + w[1:].lower()[:-1] + w[-1]
+                if w2 == w:
+                    w2 = w.lower()
+                extra.append({"op": "serde", "type": c["type"], "text": c["text"].replace('"' + w + '"', '"' + w2 + '"', 1),
+                              "meta": {"valid": False, "if_accepted_unaltered": True, "kwcase": how}})
+                kw += 1
     cases += extra
     # values obtained from the public builders (not from parsing): same writer round trips
     api_cases = []
@@ -201,6 +216,8 @@ def shard(binpath, seed, sh, n):
         cls = [f"type:{c['type']}", f"{'valid' if c['meta']['valid'] else 'mutated'}:{r}"]
         if c["meta"].get("hexcase"):
             cls.append(f"hex_letter_case:{r}")
+        if c["meta"].get("kwcase"):
+            cls.append(f"rule_keyword_letter_case:{r}")
         if r == "accepted":
             cls.append(f"roundtrip:{c['type']}")
             if '"MATCH"' in c["text"]:
